@@ -254,12 +254,13 @@ fn mutation() -> impl Strategy<Value = Mutation> {
 fn any_plan() -> impl Strategy<Value = UnitPlan> {
     let kinds = all_pull_kinds();
     let n = kinds.len();
-    (proptest::collection::vec((any::<bool>(), 0usize..n + 4), 0..7), any::<bool>(), crate::gen::plan::response(), prop_oneof![20 => Just(None), 1 => crate::gen::plan::err_spec().prop_map(Some)]).prop_map(move |(pulls, greedy, (headers, respond), fail)| UnitPlan {
+    (proptest::collection::vec((any::<bool>(), 0usize..n + 4), 0..7), any::<bool>(), crate::gen::plan::response(), prop_oneof![20 => Just(None), 1 => crate::gen::plan::err_spec().prop_map(Some)], prop_oneof![3 => Just(false), 1 => Just(true)]).prop_map(move |(pulls, greedy, (headers, respond), fail, swallow)| UnitPlan {
         pulls: pulls.into_iter().map(|(optional, k)| Pull { optional, as_: if k >= n { PullAs::All } else { kinds[k] } }).collect(),
         greedy,
         headers,
         respond,
         fail,
+        swallow,
     })
 }
 
@@ -352,6 +353,18 @@ fn run(e: &Engine) {
             [&b":A"[..], &run(b';')].concat(),
             [&b":A #9"[..], &run(b'9')].concat(),                // block length field
             [&run(b':')[..], &b"A"[..]].concat(),
+            // leading zeros in every numeric field (the value stays small, the digit count does not)
+            [&b":A #H"[..], &run(b'0'), &b"1F"[..]].concat(),
+            [&b":A #B"[..], &run(b'0'), &b"101"[..]].concat(),
+            [&b":A #q"[..], &run(b'0'), &b"7"[..]].concat(),
+            [&b":A "[..], &run(b'0'), &b"7"[..]].concat(),
+            [&b":A -"[..], &run(b'0'), &b".5"[..]].concat(),
+            [&b":A 1e"[..], &run(b'0'), &b"2"[..]].concat(),
+            [&b":A 1E-"[..], &run(b'0'), &b"1"[..]].concat(),
+            [&b":A #2"[..], &run(b'0')].concat(),
+            [&b":OUTP"[..], &run(b'0'), &b"1 1"[..]].concat(),   // numeric suffix of a mnemonic
+            [&b":A (@"[..], &run(b'0'), &b"1!"[..], &run(b'0'), &b"2)"[..]].concat(),
+            [&b":A ("[..], &run(b'0'), &b"1:"[..], &run(b'0'), &b"2)"[..]].concat(),
         ];
         for t in templates {
             long.push(Case::Fixed { bytes: B(t), plans: vec![] });
